@@ -891,8 +891,8 @@ fn exec(case: &mut Case, dir: &PathBuf, line: &str, out: &mut Out) -> (String, S
 // generator
 // ---------------------------------------------------------------------------------------------
 fn gen_ma(rng: &mut Rng, peers: u64) -> String {
-    let ip = rng.below(3);
-    let port = rng.below(3);
+    let ip = rng.below(2);
+    let port = rng.below(2);
     let p = rng.below(peers);
     let base = match rng.below(4) {
         0 => format!("i4:{ip},u:{port},q,p:{p}"),
@@ -945,8 +945,8 @@ fn gen_garbage_ma(rng: &mut Rng) -> String {
 }
 
 fn canonical_ma(rng: &mut Rng, p: u64) -> String {
-    let ip = rng.below(3);
-    let port = rng.below(3);
+    let ip = rng.below(2);
+    let port = rng.below(2);
     match rng.below(4) {
         0 => format!("i4:{ip},u:{port},q,p:{p}"),
         1 => format!("i4:{ip},u:{port},p:{p}"),
@@ -970,6 +970,7 @@ fn gen_file(rng: &mut Rng, case: &mut Case, peers: u64, wf: bool, ties: bool) ->
             tie_t
         } else {
             let mut t;
+            let mut tries = 0;
             loop {
                 t = match rng.below(8) {
                     0 => case.now + 1 + 2 * rng.below(5),                          // in the future
@@ -978,6 +979,13 @@ fn gen_file(rng: &mut Rng, case: &mut Case, peers: u64, wf: bool, ties: bool) ->
                 };
                 if t % 2 == 0 {
                     t += 1;
+                }
+                tries += 1;
+                if tries > 30 {
+                    // every candidate is taken: walk down to the first unused odd timestamp
+                    while case.used_odd.contains(&t) && t > 2 {
+                        t -= 2;
+                    }
                 }
                 if case.used_odd.insert(t) {
                     break;
@@ -1016,7 +1024,7 @@ fn gen_case(rng: &mut Rng, case: &mut Case, dir: &PathBuf, out: &mut Out, budget
     let peers = 6u64;
     let p = *rng.pick(&[0u64, 1, 2, 2, 3, 3, 4, 5, 1500]);
     let a = *rng.pick(&[0u64, 1, 1, 2, 2, 3, 6]);
-    let e = *rng.pick(&[4u64, 10, 20, 100, 86400]);
+    let e = *rng.pick(&[6u64, 20, 40, 100, 86400]);
     let n = rng.range(1, 3);
     let mut run = |case: &mut Case, l: String, out: &mut Out, budget: &mut i64| {
         let (full, r) = exec(case, dir, &l, out);
@@ -1049,22 +1057,31 @@ fn gen_case(rng: &mut Rng, case: &mut Case, dir: &PathBuf, out: &mut Out, budget
         match rng.below(100) {
             0..=34 => {
                 run(case, format!("tick {}", 2 * *rng.pick(&[1u64, 1, 1, 2, 3, e / 2 + 1])), out, budget);
-                run(case, format!("add {s} {}", gen_ma(rng, peers)), out, budget);
+                let in_file: Vec<String> = match read_raw(&case.path) {
+                    RawFile::Data(c) => c.values().flat_map(|l| l.iter().map(|a| a.ma.clone())).collect(),
+                    _ => vec![],
+                };
+                let ma = if !in_file.is_empty() && rng.chance(1, 4) { rng.pick(&in_file).clone() } else { gen_ma(rng, peers) };
+                run(case, format!("add {s} {ma}"), out, budget);
             }
             35..=49 => {
                 run(case, format!("tick {}", 2 * rng.range(1, 2)), out, budget);
                 // mostly an address this store holds
                 let mem = case.mem(s as usize);
                 let all: Vec<String> = mem.values().flat_map(|l| l.iter().map(|a| a.ma.clone())).collect();
-                let ma = if !all.is_empty() && rng.chance(4, 5) { rng.pick(&all).clone() } else { gen_ma(rng, peers) };
-                run(case, format!("upd {s} {ma} {}", if rng.chance(2, 5) { 1 } else { 0 }), out, budget);
+                if all.is_empty() && rng.chance(3, 4) {
+                    run(case, format!("add {s} {}", gen_ma(rng, peers)), out, budget);
+                } else {
+                    let ma = if !all.is_empty() && rng.chance(5, 6) { rng.pick(&all).clone() } else { gen_ma(rng, peers) };
+                    run(case, format!("upd {s} {ma} {}", if rng.chance(2, 5) { 1 } else { 0 }), out, budget);
+                }
             }
             50..=55 => run(case, format!("clean {s}"), out, budget),
-            56..=70 => {
+            56..=66 => {
                 run(case, format!("flush {s} {}", if rng.chance(3, 4) { 1 } else { 0 }), out, budget);
                 last_write_corrupt = false;
             }
-            71..=75 => {
+            67..=75 => {
                 run(case, format!("write {s}"), out, budget);
                 last_write_corrupt = false;
             }
